@@ -44,7 +44,7 @@ class ext_FileStream:
 
     def ensures(fileName, encoding, result):
         return fresh(result) and result.g_file == fileName and result.g_encoding == encoding
-    raises = {"OSError": lambda fileName: True, "UnicodeDecodeError": lambda fileName: True}
+    raises = {"UnicodeDecodeError": lambda fileName: True}
     raises_exact = False
     modifies = []
 
@@ -134,9 +134,17 @@ class ext_walk:
              "t": "ref:Cmake_fileContext"}
     raises = {"Exception": lambda self: True}
     raises_exact = False
-    modifies = ["fields(listener)", "every_list('LRef')", "every_list('LStr')",
-                "every('AbstractCommandDefinitionDocumentation.has_kwargs')",
-                "every('TestDocumentation.is_macro')", "every('MethodDocumentation.is_macro')"]
+
+    def ensures(self, listener, t):
+        """what the callbacks establish for the aggregated entries (their postconditions: e_variable/e_option fix the
+        type fields; a module doccomment can only open the file) - the composition over the event sequence is
+        ASSUMED here, see DESIGN.md"""
+        return (forall(0, len(listener.documented), lambda i: entry_ok(listener.documented[i])) and
+                forall(1, len(listener.documented),
+                       lambda i: not isinstance(listener.documented[i], ModuleDocumentation)) and
+                newer(listener.documented, listener) and
+                forall(0, len(listener.documented), lambda i: newer(listener.documented[i], listener)))
+    modifies = ["fields(listener)", "newer_than(listener)"]
 
 
 # ------------------------------------------------------------------------------------------------ error listener (C06)
@@ -163,12 +171,19 @@ class ParserErrorListener_syntaxError:
 
 
 # ------------------------------------------------------------------------------------------------ Documenter
+@spec
+def documenter_owns(d: "ref:Documenter") -> bool:
+    """the documenter's writer, aggregator and parser objects were created by it (after it)"""
+    return (newer(d.writer, d) and newer(d.writer.document, d) and newer(d.aggregator, d) and
+            newer(d.parser, d) and newer(d.walker, d))
+
+
 @contract("cminx.documenter:Documenter.__init__")
 class Documenter_init:
     """C06 K1 / C01 K5: UTF-8 decoding; a raising listener on BOTH lexer and parser; no error recovery"""
     props = ["C06", "C01", "C12", "C17"]
     types = {"title": "opt[str]", "module_name": "opt[str]", "settings": "ref:Settings"}
-    raises = {"OSError": lambda file: True, "UnicodeDecodeError": lambda file: True}
+    raises = {"UnicodeDecodeError": lambda file: True}
     raises_exact = False
 
     def requires(self, file, title, module_name, settings):
@@ -181,7 +196,7 @@ class Documenter_init:
                 self.writer.title == (title if title is not None else file) and same(self.writer.settings, settings) and
                 self.writer.indent == 0 and len(self.writer.document) == 1 and heading_ok(self.writer) and
                 fresh(self.aggregator) and same(self.aggregator.settings, settings) and
-                len(self.aggregator.documented) == 0)
+                len(self.aggregator.documented) == 0 and documenter_owns(self))
 
     def ensures_wiring(self, file, title, module_name, settings):
         return (self.input_stream.g_file == file and self.input_stream.g_encoding == "utf-8" and
@@ -202,14 +217,17 @@ class Documenter_process:
 
     def requires(self):
         return (len(header_chars(self.writer.settings)) >= 1 and len(self.writer.document) >= 1 and
-                typeof(self.writer, "RSTWriter"))
+                typeof(self.writer, "RSTWriter") and heading_ok(self.writer) and documenter_owns(self) and
+                not same(self.writer.document, self.aggregator.documented))
 
     def ensures(self, result):
         return same(result, self.writer) and same(self.writer, old.self.writer)
-    modifies = ["fields(self.aggregator)", "every_list('LRef')", "every_list('LStr')",
-                "every('AbstractCommandDefinitionDocumentation.has_kwargs')",
-                "every('TestDocumentation.is_macro')", "every('MethodDocumentation.is_macro')",
-                "every('DocumentationType.name')", "self.writer.__title"]
+
+    def ensures_assumed_tree(self, result):
+        """ASSUMED (not proved): the rendered document consists of elements the writer API creates, at every nesting
+        level (each renderer is proved to append such elements; the transitive closure is not)"""
+        return typeof(result, "RSTWriter") and tree_ok(result)
+    modifies = ["newer_than(self)"]        # the documenter's own objects and what it creates; nothing older        # the documenter's own objects and what it creates; nothing older
 
 
 @spec
